@@ -13,7 +13,10 @@ const c02Rule = "C01's generated schedules and configurations plus fault injecti
 // TestC02Provenance: Failover results always have provenance; nothing is fabricated or mixed up.
 func TestC02Provenance(t *testing.T) {
 	runCheck(t, "C02", "C02Provenance", c02Rule, func(c *Case) {
-		propFailoverSched(c, scenOpts{maxKeys: 3, minGets: 2, maxGets: 6, skipRead: true, clock: 3, external: 2, prefail: true, postActions: true, faults: 2, failPct: 40, errKinds: true},
+		// keys that differ only by a trailing zero byte, and the empty key, are distinct keys
+		keys := [][][]byte{scenKeys, {[]byte("k1"), []byte("k1\x00"), []byte("k1\x00\x00")}, {[]byte(""), []byte("\x00"), []byte("k3")}}[c.Weighted("key-alphabet", 3, 1, 1)]
+
+		propFailoverSched(c, scenOpts{keys: keys, maxKeys: 3, minGets: 2, maxGets: 6, skipRead: true, clock: 3, external: 2, prefail: true, postActions: true, faults: 2, failPct: 40, errKinds: true},
 			func(w *world, sc *scenario, complete bool) {
 				w.checkProvenance()
 
